@@ -46,6 +46,15 @@ CLAIMED["C02"] = ("exploration",
     "Trusted: MQTTCodec.tla Dec with the documented leniencies L1-L5; TLC; the recorder. Not exhaustive over all byte strings (generated + enumerated header space).",
     "DESIGN.md section 5 C02")
 
+CLAIMED["C03"] = ("model_checking",
+    "TLA+ model of the incremental decoder (Stream.tla) checked exhaustively by TLC over every delivery schedule, cut and read limit of bounded packet sequences, and bound to the code by replay: TLC generates "
+    "reference byte streams with the required packets/ending (StreamCases.tla over MQTTCodec.tla) that are fed in every fragmentation through packet.Decoder, BaseConn, TCP and WebSocket",
+    "Design: SameAsReference (result independent of fragmentation), NoPacketFromPartial, LimitBeforeBuffer, DecoderTerminates on all schedules; deviations LimitAfterRead/EofHidesPartial must violate them. "
+    "Code: every composition of all streams up to 13 bytes, seeded random chunkings of longer ones (sizes around 127/128, 4096, 16383/16384 and the read limit), a rotating sample through real TCP and WebSocket "
+    "loopback (one message per chunk, several packets per message), and whole-packet streams sent through BaseConn in async/sync mixes with the wire compared to the reference bytes.",
+    "Trusted: MQTTCodec.tla as reference for packets and endings; TLC. Loopback TCP segmentation is best effort. Long streams are sampled, not enumerated.",
+    "DESIGN.md section 5 C03")
+
 BROKER_TECH = ("TLA+ specification Broker.tla (event-granular, one action per critical section of broker/client.go and MemoryBackend) bound to the real broker by trace "
                "validation: scripted MQTT peers over harness-owned links, Backend wrapper, session-store hooks; every recorded trace checked by TLC (BrokerTrace.tla) incl. settlement")
 BROKER_NOTE = ("Trusted: TLC; the ordering argument of the harness (sends logged before, receives after, link queue + log entry atomic; store hooks under the store's lock); "
